@@ -34,6 +34,17 @@ const (
 	overrideUnsafe
 )
 
+// invalidWrap is called where a directive is reported as invalid
+// (bad verb, missing operand, bad operand index): if the directive is
+// %w, it cannot designate the error to wrap, and neither can any
+// other %w in the same format.
+func (p *pp) invalidWrap(verb rune) {
+	if verb == 'w' {
+		p.wrappedErr = nil
+		p.wrapErrs = false
+	}
+}
+
 // startPrint prepares the buffer for the literal parts of a print
 // call: they are safe, unless an enclosing Unsafe() forces everything
 // that is printed to be unsafe.
